@@ -206,7 +206,7 @@ struct Sc<C: MlsConfig> {
 }
 
 fn setup<C: MlsConfig>(rng: &mut Rng, mk: Mk<C>, n: usize, enc_ctl: bool) -> Result<Sc<C>, String> {
-    let mut w: World<C> = new_world(Default::default(), "/tmp/vharness-scratch-mut");
+    let mut w: World<C> = new_world(Default::default(), &crate::util::scratch("mut"));
     let pid = rng.bytes(8);
     w.psks.insert(pid, rng.bytes(32));
     for i in 0..n {
@@ -757,6 +757,6 @@ pub fn run(o: &Opts, focus: &str) -> i32 {
         qa.put(q, a);
     }
     println!("rows {}", qa.finish());
-    let _ = std::fs::remove_dir_all("/tmp/vharness-scratch-mut");
+    let _ = std::fs::remove_dir_all(&crate::util::scratch("mut"));
     0
 }
